@@ -7,7 +7,7 @@
 (* the event violates.  Verdicts are total: a failing event is printed as    *)
 (* <<"FAIL", id, {clauses}>> and the run continues; <<"DONE", n>> proves      *)
 (* every event was consumed.                                                 *)
-EXTENDS Util, FA, Regex, CFG, PDA, TM, JFA, JRE, JCFG, JPDA, JTM, JENUM, JWIT, JTXT, JPARSE, JCHK, JPURE, Json, IOUtils
+EXTENDS Util, FA, Regex, CFG, PDA, TM, JFA, JRE, JCFG, JPDA, JTM, JENUM, JWIT, JTXT, JPARSE, JCHK, JPURE, JTRACE, Json, IOUtils
 
 Events == ndJsonDeserialize(IOEnv.EVENTS)
 
@@ -37,6 +37,10 @@ Fails(e) ==
     [] e.op = "pda_transform" -> JPdaTransform(e)
     [] e.op = "tm_run"        -> JTmRun(e)
     [] e.op = "enum"          -> JEnum(e)
+    [] e.op = "ec_trace"      -> JEcTrace(e)
+    [] e.op = "hop_trace"     -> JHopTrace(e)
+    [] e.op = "iso_trace"     -> JIsoTrace(e)
+    [] e.op = "unit_trace"    -> JUnitTrace(e)
     [] e.op = "pure_call"     -> JPureCall(e)
     [] e.op = "same_elsewhere" -> JSameElsewhere(e)
     [] e.op = "check"         -> JCheck(e)
